@@ -109,6 +109,11 @@ def observe_on(kind, msg, path=None):
             return query(msg, path)
         if kind == 'values':
             return digest_decoded(msg)
+        if kind == 'wire':
+            # BufrMessage.wire() once more on an already wired message (as `decode -a` does after a decode that wired):
+            # guarded by the wire-once flag, it must change nothing that is observed afterwards
+            msg.wire()
+            return 'ok'
     except Exception as e:
         return 'err %d' % err_code(e)
     raise ValueError(kind)
